@@ -1236,7 +1236,16 @@ class Fetcher:
                     continue
                 res_or_error = self._records[tp]
                 if type(res_or_error) is FetchResult:
-                    records = res_or_error.getall(max_records)
+                    try:
+                        records = res_or_error.getall(max_records)
+                    except Exception:
+                        if not drained:
+                            raise
+                        # Positions of the partitions drained so far have
+                        # advanced already: return those records. The failed
+                        # result is stale now (position did not move), it
+                        # is fetched again and the error raised on next call
+                        return drained
                     if not res_or_error.has_more():
                         # We processed all messages - request new ones
                         del self._records[tp]
